@@ -46,7 +46,7 @@ pub trait RollingValidBinary<T: IsNone>: Vec1View<T> {
                     sum_b += vb;
                     sum_ab += va * vb;
                 };
-                let res = if n >= min_periods {
+                let res = if n >= min_periods && n > 1 {
                     (sum_ab - (sum_a * sum_b) / n.f64()) / (n.f64() - 1.)
                 } else {
                     f64::NAN
